@@ -4,6 +4,7 @@ import (
 	"bytes"
 	"fmt"
 	"regexp"
+	"strings"
 	"sync"
 	"text/template"
 
@@ -37,6 +38,27 @@ var helperFuncs = template.FuncMap{
 	"sanitize": func(name string) string {
 		return invalid.ReplaceAllString(name, "_")
 	},
+	// vclstring writes text as a double-quoted VCL string literal. The characters that
+	// would end the literal or be taken for an escape are written as %XX escapes, which
+	// the parser decodes back: the program sees exactly the resource's text.
+	"vclstring": func(text string) string {
+		var sb strings.Builder
+		sb.WriteByte('"')
+		for i := 0; i < len(text); i++ {
+			switch c := text[i]; c {
+			case '"', '%', '\n', '\r':
+				fmt.Fprintf(&sb, "%%%02X", c)
+			default:
+				sb.WriteByte(c)
+			}
+		}
+		sb.WriteByte('"')
+		return sb.String()
+	},
+	// oneline keeps free text inside a "#" line comment
+	"oneline": func(text string) string {
+		return strings.NewReplacer("\r\n", " ", "\n", " ", "\r", " ").Replace(text)
+	},
 	"objectify": func(p Phase) string {
 		switch p {
 		case RequestPhase:
@@ -54,11 +76,12 @@ var helperFuncs = template.FuncMap{
 
 var dictionaryTemplate = template.Must(
 	template.New("dictionary").
+		Funcs(helperFuncs).
 		Parse(
 			`
 table {{ .Name }} STRING {
   {{- range .Items }}
-  "{{ .Key }}": "{{ .Value }}",
+  {{ .Key | vclstring }}: {{ .Value | vclstring }},
   {{- end }}
 }
 `,
@@ -66,11 +89,12 @@ table {{ .Name }} STRING {
 
 var aclTemplate = template.Must(
 	template.New("acl").
+		Funcs(helperFuncs).
 		Parse(
 			`
 acl {{ .Name }} {
 	{{- range .Entries }}
-	{{ if .Negated }}!{{ end }}"{{ .Ip }}"{{ if .Subnet }}/{{ .Subnet }}{{ end }};{{ if .Comment }}  # {{ .Comment }}{{ end }}
+	{{ if .Negated }}!{{ end }}"{{ .Ip }}"{{ if .Subnet }}/{{ .Subnet }}{{ end }};{{ if .Comment }}  # {{ .Comment | oneline }}{{ end }}
 	{{- end }}
 }
 `,
@@ -82,7 +106,7 @@ var backendTemplate = template.Must(
 		Parse(
 			`
 backend F_{{ .Name | sanitize }} {
-	{{ if .Address }}.host = "{{.Address}}";{{ end }}
+	{{ if .Address }}.host = {{ .Address | vclstring }};{{ end }}
 }
 `,
 		))
@@ -169,12 +193,13 @@ var responseObjectConditionTemplate = template.Must(
 
 var responseObjectTemplate = template.Must(
 	template.New("responseobject").
+		Funcs(helperFuncs).
 		Parse(
 			`
 if (obj.status == {{ .StatusCode }}) {{"{"}}
 	set obj.status = {{ .Status }};
-	set obj.http.Content-Type = "{{ .ContentType }}";
-	synthetic {{"{\""}}{{if .Content }}{{ .Content }}{{else}}{{ .Response }}{{end}}{{"\"}"}};
+	set obj.http.Content-Type = {{ .ContentType | vclstring }};
+	synthetic {{if .Content }}{{ .Content | vclstring }}{{else}}{{ .Response | vclstring }}{{end}};
 	return(deliver);
 {{"}"}}
 `,
